@@ -184,6 +184,50 @@ example : processTruncate 2 4 .left [1, 2, 3] = .ok [] := by decide
 example : processTruncate 5 2 .left [1, 2, 3, 4, 5, 6, 7, 8, 9, 10] = .ok [7, 8, 9, 10] := by decide
 example : processTruncate 5 2 .right [1, 2, 3, 4, 5, 6, 7, 8, 9, 10] = .ok [1, 2, 3, 4] := by decide
 
+/-! ### Idempotence and the fixed-length idiom (corollaries of the specifications above) -/
+
+/-- Padding twice with the same parameters is padding once. -/
+theorem pad_idempotent (id : Id) (n s : Nat) (d : Direction) (ts : List Id) :
+    processPad id n s d (processPad id n s d ts) = processPad id n s d ts := by
+  by_cases h : n ≤ ts.length
+  · rw [pad_noop id n s d ts h, pad_noop id n s d ts h]
+  · obtain ⟨k, hk, hn, _, _⟩ := pad_spec id n s d ts (by omega)
+    apply pad_noop
+    rw [hk]; cases d <;> simp <;> omega
+
+/-- Truncating twice with the same parameters is truncating once. -/
+theorem truncate_idempotent (n s : Nat) (d : Direction) (ts out : List Id)
+    (h : processTruncate n s d ts = .ok out) : processTruncate n s d out = .ok out := by
+  have hl := (truncate_spec n s d ts out h).1
+  unfold processTruncate
+  simp [hl]
+
+/-- The fixed-length idiom: pad to `n`, then truncate to `n`, both with stride 0, always yields exactly `n` tokens. -/
+theorem pad_then_truncate_length (id : Id) (n : Nat) (d d' : Direction) (ts out : List Id)
+    (h : processTruncate n 0 d' (processPad id n 0 d ts) = .ok out) : out.length = n := by
+  by_cases hle : n ≤ ts.length
+  · rw [pad_noop id n 0 d ts hle] at h
+    obtain ⟨hlen, _, k, hk, hout, hrest⟩ := truncate_spec n 0 d' ts out h
+    by_cases heq : ts.length = n
+    · have := (truncate_spec n 0 d' ts out h).2.1 (by omega); subst this; exact heq
+    · unfold processTruncate at h
+      simp only [] at h
+      have hgt : ¬ ts.length ≤ n := by omega
+      simp only [hgt, if_false, roundUp_zero_stride] at h
+      have hmin : min (ts.length - n) ts.length = ts.length - n := by omega
+      rw [hmin] at h
+      cases d' <;> simp only [] at h <;> split at h <;> first | omega | skip
+      · injection h with h; subst h; simp; omega
+      · injection h with h; subst h; simp; omega
+  · obtain ⟨k, hk, hn, hz, _⟩ := pad_spec id n 0 d ts (by omega)
+    have hkn := hz rfl
+    have hlen : (processPad id n 0 d ts).length = n := by
+      rw [hk]; cases d <;> simp <;> omega
+    have := (truncate_spec n 0 d' _ out h).2.1 (by omega)
+    subst this; exact hlen
+
+example : processTruncate 4 0 .right (processPad 0 4 0 .left [1, 2]) = .ok [0, 0, 1, 2] := by decide
+example : processTruncate 4 0 .right (processPad 0 4 0 .left [1, 2, 3, 4, 5, 6]) = .ok [1, 2, 3, 4] := by decide
 /-! ### The configured sequence of steps -/
 
 theorem processSteps_total (steps : List Processing) (ts : List Id) :
